@@ -29,6 +29,8 @@ def run_demo(prop, n, wt, meta):
         m = re.search(r'cargo run[^\n;&#]*?(-- [^\n;&#]*)', cmd)
         if m: args = m.group(1)
         rel = '--release' if '--release' in cmd else ''
+        mb = re.search(r'target/(?:debug|release)/(\w+)', cmd)
+        if mb: rel += ' --bin ' + mb.group(1)
         rc, out = sh('timeout 600 cargo run --offline %s %s 2>&1 | tail -15' % (rel, args), cwd=ddir, timeout=900)
         rc2 = 0 if re.search(r'\bPASS\b|passed|exit code 0', out) and not re.search(r'FAIL|violat|wedged|blocked|panicked', out) else 1
         # use the real exit status
